@@ -93,7 +93,7 @@ def run(ctx, report: Report) -> None:
     elements = [[]] + [[k] for k in keys] + [list(p) for p in itertools.permutations(keys, 2)]
     first_bad = None
     n = 0
-    for is_xml in (True, False):
+    for is_xml in (True, False, 'xhtml'):           # 'xhtml': XML tree with an XHTML root (is_xml and is_html)
         for prefix in ('', '*', 'p', 'q'):
             nsmap = {'p': U1}
             for el_keys in elements:
@@ -101,8 +101,8 @@ def run(ctx, report: Report) -> None:
                 # the real accessors (iter_attributes, split_namespace, get_tag_ns ...) are interpreted too; only the value
                 # normalisation is replaced by a tagging stand-in so that a raw (un-normalised) result is visible
                 el = el_obj('e', attrs={(NSKey(k, *ATTR_KINDS[k]) if ATTR_KINDS[k][0] is not None else k): v for k, v in attrs},
-                            is_xml=is_xml)
-                me = matcher_obj(is_xml=is_xml, is_html=not is_xml, namespaces=nsmap)
+                            is_xml=bool(is_xml))
+                me = matcher_obj(is_xml=bool(is_xml), is_html=(not is_xml) or is_xml == 'xhtml', has_html_namespace=is_xml == 'xhtml', namespaces=nsmap)
                 stubs = {'css_match.CSSMatch.supports_namespaces': lambda: True,
                          'css_match._DocumentNav.normalize_value': lambda v: ('normalised', v)}
                 try:
@@ -173,7 +173,6 @@ def run(ctx, report: Report) -> None:
     # ---- R3 ------------------------------------------------------------------------------------------
     r3 = report.rule('C12-R3', 'element namespace decision table', floor=30)
     _, mn = src.func('css_match.CSSMatch.match_namespace')
-    p_self, p_el2, p_tag = [a.arg for a in mn.args.args]
     first_bad = None
     n = 0
     for has_default in (False, True):
@@ -182,39 +181,40 @@ def run(ctx, report: Report) -> None:
             nsmap[''] = DFLT
         for prefix in (None, '', '*', 'p', 'q'):
             for el_ns in ('', U1, U2, DFLT):
-                def consts(name, _p=prefix):
-                    if name == f'{p_tag}.prefix':
-                        return _p
-                    if name == 'self.namespaces':
-                        return nsmap
-                    raise KeyError(name)
-                calls = {'self.get_tag_ns': lambda e, _n=el_ns: _n,
-                         'self.namespaces.get': lambda k, d=None, _m=nsmap: _m.get(k, d)}
-                env = {'self': miniev.Sym('self'), p_el2: miniev.Sym('el'), p_tag: miniev.Sym('tag')}
-                try:
-                    got = bool(miniev.MiniEval(env, consts=consts, calls=calls).run(mn.body))
-                except miniev.Unsupported as e:
-                    raise AnalysisError(f'match_namespace: outside the evaluable fragment: {e}')
-                if prefix is None:
-                    exp = (not has_default) or el_ns == DFLT
-                elif prefix == '':
-                    exp = el_ns == ''
-                elif prefix == '*':
-                    exp = True
-                else:
-                    exp = nsmap.get(prefix) is not None and el_ns == nsmap[prefix]
-                n += 1
-                r3.instance({'selector_prefix': prefix, 'default_entry': has_default, 'element_namespace': el_ns or '(none)',
-                             'matches': got, 'expected': exp}, key=f'{has_default}|{prefix}|{el_ns}', sample_cap=4)
-                if got != exp and first_bad is None:
-                    first_bad = (has_default, prefix, el_ns, got, exp)
+                for sel_name, el_name in (('*', 'e'), ('e', 'e'), ('e', 'f')):
+                    # match_tag is what a compound's type selector (explicit or the implied universal one) goes through
+                    me = matcher_obj(is_xml=True, is_html=False, namespaces=nsmap)
+                    tag = Obj(_name='SelectorTag', name=sel_name, prefix=prefix)
+                    try:
+                        got = bool(call_function(ctx, 'css_match.CSSMatch.match_tag', [el_obj(el_name, namespace=el_ns, is_xml=True), tag],
+                                                 {}, {'css_match.CSSMatch.supports_namespaces': lambda: True}, me))
+                    except Raised as e:
+                        got = f'raises {e.exc_name}'
+                    except miniev.Unsupported as e:
+                        raise AnalysisError(f'match_tag/match_namespace: outside the evaluable fragment: {e}')
+                    if prefix is None:
+                        ns_ok = (not has_default) or el_ns == DFLT
+                    elif prefix == '':
+                        ns_ok = el_ns == ''
+                    elif prefix == '*':
+                        ns_ok = True
+                    else:
+                        ns_ok = nsmap.get(prefix) is not None and el_ns == nsmap[prefix]
+                    exp = ns_ok and (sel_name == '*' or sel_name == el_name)
+                    n += 1
+                    r3.instance({'selector': ('' if prefix is None else prefix + '|') + sel_name, 'default_entry': has_default,
+                                 'element': f'{el_name} in {el_ns or "(no namespace)"}', 'matches': got, 'expected': exp},
+                                key=f'{has_default}|{prefix}|{el_ns}|{sel_name}|{el_name}', sample_cap=4)
+                    if got != exp and first_bad is None:
+                        first_bad = (has_default, prefix, el_ns, got, exp, sel_name, el_name)
     r3.obligation(first_bad is None)
     if first_bad is not None:
-        has_default, prefix, el_ns, got, exp = first_bad
-        form = {None: 'E', '': '|E', '*': '*|E'}.get(prefix, f'{prefix}|E')
+        has_default, prefix, el_ns, got, exp, sel_name, el_name = first_bad
+        form = ('' if prefix is None else prefix + '|') + sel_name
         r3.violation('css_match.CSSMatch.match_namespace decision table', mmod.where(mn),
-                     f'match_namespace: selector form {form} (map: p -> {U1}{", default -> " + DFLT if has_default else ""}) on '
-                     f'an element in namespace {el_ns or "(none)"} gives {got}, the property prescribes {exp}')
+                     f'match_tag: type selector {form} (map: p -> {U1}{", default -> " + DFLT if has_default else ""}) on an element '
+                     f'<{el_name}> in namespace {el_ns or "(none)"} gives {got}, the property prescribes {exp} (the universal selector - '
+                     f'explicit or implied - is subject to the default namespace like any type selector)')
 
     r4 = report.rule('C12-R4', 'implied universal selector is added exactly to top-level alternatives (parsed token sequences)', floor=4)
     from .sem import implied_universal_tables
